@@ -1,13 +1,14 @@
-//@ variant: stable FRESH=1 UNW=2
+//@ variant: stable FRESH=1 UNW=2 EXTRA=-DXV_CS_MAX=2
+//@ variant: retry FRESH=3 UNW=3 EXTRA=-DXV_CS_MAX=1_-DXV_GET_SMALL
 //@ tu: libxcm/tp/tls/ctx_store.c libxcm/tp/tls/item.c
 //@ enforce: ctx_store_get_ctx
 //@ replace: get_credentials_hash load_ssl_ctx
 //@ pre-unwind: ctx_store_get_ctx.8:$UNW cache_get.0:3 memcmp.0:33 strlen.0:5
-//@ defs: -DXV_LSC_RECORD -DXV_MD_FRESH=$FRESH
+//@ defs: -DXV_LSC_RECORD -DXV_MD_FRESH=$FRESH $EXTRA
 //@ flags: --object-bits 9
 //@ props: C15 C18 C08
-//@ bounded: the cache holds 0..2 entries when the lock is acquired; designated names/values and files of 0..3 bytes; variant stable: the credential files do not change during the call (the 2nd digest repeats the 1st: one pass of the retry loop); variant retry: they change at most so often that the loop runs twice (the 4th digest repeats the 3rd)
-//@ expect: postcondition>=12 canary>=6
+//@ bounded: the cache holds 0..2 entries when the lock is acquired; designated names/values and files of 0..3 bytes; variant stable: the credential files do not change during the call (the 2nd digest repeats the 1st: one pass of the retry loop); variant retry: they change at most so often that the loop runs twice (the 4th digest repeats the 3rd), 0..1 entries at acquire, trusted-CA and CRL items unset
+//@ expect: postcondition>=11 canary>=6
 #include "_unit_cs.h"
 void harness(void)
 {
@@ -18,12 +19,18 @@ void harness(void)
     SSL_CTX *ctx = ctx_store_get_ctx(cert, key, tc, crl, log_ref);
     if (ctx == NULL && xv_errno == EPROTO) XV_CANARY("failure, EPROTO");
     if (ctx == NULL && xv_md_calls == md0 + 1) XV_CANARY("failure after the first digest (load or stat failed)");
+#if XV_CS_MAX >= 2
     if (ctx != NULL && xv_acq.n == 2 && ctx == xv_acq.ctx[1]) XV_CANARY("hit on the second of two entries");
+    if (ctx != NULL && xv_pub.n == 3) XV_CANARY("new entry in front of two");
+#else
+    if (ctx != NULL && xv_acq.n == 1 && ctx == xv_acq.ctx[0]) XV_CANARY("hit on the only entry");
+    if (ctx != NULL && xv_pub.n == 2) XV_CANARY("new entry in front of one");
+#endif
     if (ctx != NULL && xv_md_calls == md0 + 1) XV_CANARY("hit at once");
     if (ctx != NULL && xv_pub.n == 1) XV_CANARY("new entry in an empty cache");
-    if (ctx != NULL && xv_pub.n == 3) XV_CANARY("new entry in front of two");
 #if XV_MD_FRESH >= 3
     if (ctx != NULL && xv_md_calls == md0 + 3) XV_CANARY("hit on the retry");
-    if (ctx != NULL && xv_pub.n == 3 && xv_md_calls == md0 + 4) XV_CANARY("new entry in front of two, after one retry");
+    if (ctx != NULL && xv_pub.n == 2 && xv_md_calls == md0 + 4) XV_CANARY("new entry in front of one, after one retry");
+    if (ctx == NULL && xv_md_calls == md0 + 3) XV_CANARY("failure on the second pass");
 #endif
 }
